@@ -634,6 +634,18 @@ pub fn execute_scenario(sc: &Scenario) -> Result<ScenarioOutcome, String> {
                         Ok((mut p, cap)) => {
                             let c = do_check(&mut p, &cap, &root, &opts, false);
                             divs.extend(compare_check(&format!("{what}:check"), &c, &refc.check, false));
+                            // `aiken export` of every exportable function, on the checked project
+                            for (key, want) in refc.exports.iter() {
+                                if let Some((m, f)) = key.rsplit_once('.') {
+                                    let e = do_export(&p, m, f, &opts);
+                                    if &e != want {
+                                        divs.push((
+                                            format!("{what}:export"),
+                                            format!("{key}: {}", first_diff(&e, want)),
+                                        ));
+                                    }
+                                }
+                            }
                         }
                         Err(e) => divs.push(("project-new".into(), e)),
                     },
